@@ -41,6 +41,8 @@ structure St where
   expBuf : List (Nat × Nat) := []          -- si ↦ expected buffered amount
   expCb : List (Nat × Nat) := []           -- si ↦ expected callback count
   thresh : List (Nat × Nat) := []
+  unreg : List Nat := []                    -- streams the association dropped (peer reset) and not re-opened since
+  estab : Bool := true                      -- harness put the association into the established state
   pendingCheck : Option (String × List String) := none   -- op waiting for its state line
   deriving Inhabited
 
@@ -125,13 +127,15 @@ def checkStep (st : St) (op impl : List String) (pre post : Obs) : St × List St
           o := o + len
           rw := rw - len
           st := { st with sent := st.sent.insert tsn { si := si, len := len, acked := false } }
+  | ["unreg", si] => st := { st with unreg := (si.toNat?.getD 0) :: st.unreg }
+  | ["setstate", b] => st := { st with estab := b == "1" }
   | ["sack", cum, arw, gaps, _dups] =>
     let cum := cum.toNat?.getD 0
     let rejected := impl != ["nil"]
     let stale := serialLT cum pre.cum
-    if rejected || stale then
+    if rejected || stale || !st.estab then
       if post.raw != pre.raw then
-        out := out ++ [s!"[C03] a {if rejected then "rejected" else "stale"} SACK changed the sender state: before `{pre.raw}` after `{post.raw}`"]
+        out := out ++ [s!"[C03] a {if rejected then "rejected" else if stale then "stale" else "not expected (association not established)"} SACK changed the sender state: before `{pre.raw}` after `{post.raw}`"]
     else
       st := { st with lastArwnd := arw.toNat?.getD 0 }
       -- which TSNs does it newly acknowledge?
